@@ -29,7 +29,6 @@ import (
 	"k8s.io/apimachinery/pkg/labels"
 	glog "k8s.io/klog"
 	"tkestack.io/galaxy/pkg/api/galaxy/constant"
-	"tkestack.io/galaxy/pkg/ipam/cloudprovider/rpc"
 	"tkestack.io/galaxy/pkg/ipam/floatingip"
 	"tkestack.io/galaxy/pkg/ipam/schedulerplugin/util"
 )
@@ -112,13 +111,8 @@ func (p *FloatingIPPlugin) resyncAllocatedIPs(meta *resyncMeta) {
 			glog.Infof("%s is not running, %s", obj.keyObj.KeyInDB, reason)
 			if p.cloudProvider != nil && obj.fip.NodeName != "" {
 				// For tapp and sts pod, nodeName will be updated to empty after unassigning
-				glog.Infof("UnAssignIP nodeName %s, ip %s, key %s during resync", obj.fip.NodeName,
-					obj.fip.IP.String(), key)
-				if err := p.cloudProviderUnAssignIP(&rpc.UnAssignIPRequest{
-					NodeName:  obj.fip.NodeName,
-					IPAddress: obj.fip.IP.String(),
-				}); err != nil {
-					glog.Warningf("failed to unassign ip %s to %s: %v", obj.fip.IP.String(), key, err)
+				if err := p.unassignIPsOfKey(key, "during resync"); err != nil {
+					glog.Warning(err)
 					// return to retry unassign ip in the next resync loop
 					return
 				}
